@@ -167,6 +167,8 @@ requires old(self).wf(), old(self).room(),
 ensures
     resolve(old(self).scopes(), name@) is Some ==> r == resolve(old(self).scopes(), name@)->Some_0 && *final(self) == *old(self),
     resolve(old(self).scopes(), name@) is None ==> r.0 == old(self).store().len() && sym_of(name@, *typ, final(self).store().last()),
+    // ... and then it is a binding in the current scope, exactly as new_binding makes one
+    resolve(old(self).scopes(), name@) is None ==> ({ let r = r; ''' + ' && '.join('(%s)' % c for c in NEWB) + ''' }),
     final(self).wf(),''')),
         ('new', dict(ret='r', props=['C19'], spec='''
 ensures
